@@ -41,6 +41,12 @@ func TestBatches(t *testing.T) {
 		// ---- issuer configuration (truncated-id collisions are outside the property's domain: see DESIGN.md)
 		n1 := rapid.IntRange(0, 2).Draw(t, "type1Issuers")
 		n2 := rapid.IntRange(0, 2).Draw(t, "type2Issuers")
+		if gen.Uniform(t, 8, "manyIssuers") == 0 {
+			// a configuration with MANY issuers (an issuer table with a capacity, or one indexed by a few bits of the id)
+			n1 = gen.Pick(t, []int{9, 17, 33, 70}, "manyType1")
+			n2 = gen.Pick(t, []int{2, 6}, "manyType2")
+			s.Class("many-issuers")
+		}
 		var iss1 []*type1.BasicPrivateIssuer
 		var keys1 []*oprf.PrivateKey
 		used1 := map[byte]bool{}
